@@ -316,6 +316,7 @@ theorem frame_package (g : Graph) (hwf : GraphWF g) (p : Package) :
     cases hk : nd.kind with
     | imp _ => rfl
     | alias _ _ => rfl
+    | defn _ => rfl
     | inst pkg =>
       simp only
       have hmem := (indexedFrom_mem 0 g.nodes i nd).mp hx
@@ -340,6 +341,12 @@ theorem findAlias_some (src idx : Nat) : ∀ (l : List Node) (i n : Nat), findAl
       have : n - i = (n - (i + 1)) + 1 := by omega
       rw [this]; simpa using h2
     | inst _ =>
+      rw [hk] at h
+      obtain ⟨h1, nd', h2, h3⟩ := findAlias_some src idx r (i + 1) n h
+      refine ⟨by omega, nd', ?_, h3⟩
+      have : n - i = (n - (i + 1)) + 1 := by omega
+      rw [this]; simpa using h2
+    | defn _ =>
       rw [hk] at h
       obtain ⟨h1, nd', h2, h3⟩ := findAlias_some src idx r (i + 1) n h
       refine ⟨by omega, nd', ?_, h3⟩
